@@ -2,6 +2,7 @@
 //!   cteepbd-mc <ID> [quick|thorough] [--replay <file>]
 
 mod alpha;
+mod cli;
 mod cmp;
 mod core;
 mod model;
@@ -10,6 +11,7 @@ mod refm;
 mod sched;
 mod subj;
 mod tree;
+mod xmlcheck;
 
 use std::time::Instant;
 
@@ -44,7 +46,7 @@ fn main() {
     let seed = std::env::var("VERIF_SEED").ok().and_then(|s| s.parse::<u64>().ok()).unwrap_or(0);
     sched::set_seed(seed);
     // the subject's panics are caught and counted; keep stderr readable
-    std::panic::set_hook(Box::new(|_| {}));
+    std::panic::set_hook(Box::new(|info| core::note_panic_location(info)));
     let inline_ok = match sched::self_test() {
         Ok(()) => true,
         Err(e) => {
@@ -75,6 +77,16 @@ fn main() {
         return;
     }
     let code = match (id.as_str(), replay) {
+        ("C15", None) => props::c15::run(&ctx),
+        ("C15", Some(p)) => props::c15::replay(&p),
+        ("C16", None) => props::c16::run(&ctx),
+        ("C16", Some(p)) => props::c16::replay(&p),
+        ("C17", None) => props::c17::run(&ctx),
+        ("C17", Some(p)) => props::c17::replay(&p),
+        ("C18", None) => props::c18::run(&ctx),
+        ("C18", Some(p)) => props::c18::replay(&p),
+        ("C19", None) => props::c19::run(&ctx),
+        ("C19", Some(p)) => props::c19::replay(&p),
         ("C01", None) => props::c01::run(&ctx),
         ("C01", Some(p)) => props::c01::replay(&p),
         ("C02", None) => props::c02::run(&ctx),
